@@ -61,6 +61,7 @@ pub fn run(cfg: &Cfg) -> Report {
                 } else {
                     // stream maps: every snapshot entry comes from an append (key/value pairs may be deduplicated)
                     let appended: Vec<serde_json::Value> = so_far.iter().filter_map(|a| serde_json::from_str::<serde_json::Value>(&a.value).ok()).collect();
+                    let mut n_members = 0usize;
                     for v in &snap.values {
                         let parsed = serde_json::from_str::<serde_json::Value>(v).unwrap_or(serde_json::Value::Null);
                         // canon into a canon map: {"key":..,"value":..} entries; canon into a scalar: one object key -> value
@@ -68,14 +69,21 @@ pub fn run(cfg: &Cfg) -> Report {
                             (Some(_), Some(val)) if parsed.as_object().map(|o| o.len() == 2).unwrap_or(false) => vec![val.clone()],
                             _ => parsed.as_object().map(|o| o.values().cloned().collect()).unwrap_or_else(|| vec![parsed.clone()]),
                         };
+                        n_members += members.len();
                         for val in members {
                             if !appended.contains(&val) {
                                 st.violation("C13", "map-content-not-appended", &format!("step {} at {}: {} as seen by canon holds {} which was never appended", s.idx, w.peers[s.peer].name, snap.name, proj::trunc(&val.to_string(), 60)), case, ctx());
                             }
                         }
                     }
-                    if snap.values.len() > so_far.len() {
-                        st.violation("C13", "map-content-count", &format!("step {}: {} holds {} entries but only {} appends happened", s.idx, snap.name, snap.values.len(), so_far.len()), case, ctx());
+                    // entries are counted as key/value members: a canon into a scalar reports ONE object
+                    // holding all of them (an empty map is the single value {}), a canon into a canon
+                    // map reports one {"key","value"} entry per member
+                    if n_members > so_far.len() {
+                        st.violation("C13", "map-content-count", &format!("step {}: {} holds {} entries but only {} appends happened", s.idx, snap.name, n_members, so_far.len()), case, ctx());
+                    }
+                    if n_members >= 2 {
+                        st.seen("nontrivial_observations", crate::rng::fnv(format!("{}|{}|{:?}", w.air, s.idx, snap.values).as_bytes()));
                     }
                 }
             }
